@@ -249,6 +249,17 @@ def check(program: Program, run: Run) -> None:
 
     _couplings(program, run)
     _accumulation(program, run)
+    # an embedded statement that loses its parentheses puts its clauses at the top level of the outer statement a second time
+    from . import c10
+    sub = Run("C10", run.tier)
+    c10.check(program, sub)
+    for o in sub.obligations:
+        if o.rule.startswith("C10/R2"):
+            run.ob("C13 (inherited from C10/R2) an embedded statement is wrapped exactly once", o.subject, o.ok, o.detail, o.where)
+    for fd in sub.findings:
+        if not fd.info and fd.key.startswith("C10/tail-wrap:"):
+            run.finding("C13/embedded-unwrapped:" + fd.key.split(":", 1)[1], "a nested statement of this class is not parenthesised, so SELECT/FROM/WHERE appear twice at the top level of the outer statement: " + fd.what,
+                        where=fd.where, rule="inherited from C10/R2")
 
 
 # ----------------------------------------------------------------------------- R4
